@@ -834,10 +834,7 @@ def _first_call_in_test(test, helpers, cls, caller):
         return None
     holder = ast.Module(body=[], type_ignores=[])
     holder.test = test
-    r = walk(holder, "test", test)
-    if r is not None and r[0] is holder:
-        return None  # the whole test is the call: nothing is gained by a local
-    return r
+    return walk(holder, "test", test)
 
 
 def _inline_in_block(stmts, helpers, caller, cls, rep: Report, failed: set):
@@ -865,7 +862,9 @@ def _inline_in_block(stmts, helpers, caller, cls, rep: Report, failed: set):
                 if tmp not in _local_names(caller):
                     pre_st = ast.copy_location(ast.Assign([ast.Name(tmp, ast.Store())], inner, lineno=st.lineno), st)
                     name = ast.copy_location(ast.Name(tmp, ast.Load()), inner)
-                    if isinstance(field, tuple):
+                    if isinstance(holder, ast.Module):
+                        st.test = name  # the whole test was the call
+                    elif isinstance(field, tuple):
                         getattr(holder, field[0])[field[1]] = name
                     else:
                         setattr(holder, field, name)
@@ -1153,6 +1152,7 @@ def normalize(modules) -> Report:
     n2.while_to_for(modules, known, rep)
     n2.unroll_constant_loops(modules, known, rep)
     n2.expand_table_dispatch(modules, known, rep)
+    n2.expand_keyed_arms(modules, known, rep)
     n2.propagate_fresh_locals(modules, known, rep)
     n2.thread_constant_flags(modules, known, rep)
     seen = set()
